@@ -360,7 +360,11 @@ def cases(tier, seed):
                    "fixed": [(10, [tgt]), (20, [("let", ("var", "P"), ("fn", "VARPTR", [("var", "A$")]), False)]), (30, [("data", [("q", "D")])])],
                    "spec": [("A$", True, 0, None, [nm, "varptr"])]}
     for text in ('10 PLAY "C"', '10 HDRAW "U4"', "10 A=INSTR(1,A$,B$)", "10 A$=STRING$(3,B$)", "10 A=VAL(A$)", "10 INPUT A$,B", "10 READ A\n20 DATA ,1",
-                 '10 PLAY A$:HDRAW B$:A=VAL(A$)+INSTR(2,A$,"X"):PRINT STRING$(2,"*");HEX$(A)'):
+                 '10 PLAY A$:HDRAW B$:A=VAL(A$)+INSTR(2,A$,"X"):PRINT STRING$(2,"*");HEX$(A)',
+                 # a quotation mark without a partner in the program (a remark, a DATA item, a constant left open at the end of
+                 # its line): the library text behind it is still the library text
+                 '10 REM SAY "HI\n20 A=VAL(A$)', "10 A$=STRING$(3,B$) 'IT\"S A TUNE", '10 PLAY "C":READ B$\n20 DATA A"B',
+                 '10 A=INSTR(1,A$,B$):PRINT "OPEN', '10 REM "\n20 REM ""\n30 HDRAW "U4":A=VAL(A$)'):
         for st in (1, 16, 32, 33, 128, 255):
             yield {"bundle": True, "text": text, "storage": st, "init": st % 2 == 0, "seed": 0}
     for i in range(n):
